@@ -43,7 +43,13 @@ func evToken(e EvRec, ids map[p.Key]int) string {
 		}
 		return "0"
 	}
-	return fmt.Sprintf("%s:%s:%d:%s%s", e.Kind, op, ids[k], b(e.Peek.HasPred), b(e.Peek.Verdict))
+	// the oracle bit handed to the model: the observed decision where it is exact, else the peeked verdict
+	// (for a delete of an object that is not in the store the model never reads it)
+	v := e.Peek.Verdict
+	if e.Before == 0 && !(e.Del && e.Peek.Persisted && !e.Peek.InStore) {
+		v = e.Pending != 0
+	}
+	return fmt.Sprintf("%s:%s:%d:%s%s", e.Kind, op, ids[k], b(e.Peek.HasPred), b(v))
 }
 
 // modelLines renders the batches for the Lean store model and what the real updater did.
